@@ -41,7 +41,7 @@ struct Options {
   int workers = 16;
   uint64_t seed = 0;
   bool seed_set = false;
-  bool selftest = false, list = false, quiet = false, no_min = false;
+  bool selftest = false, list = false, quiet = false, no_min = false, dump_case = false;
   double max_seconds = -1;
   long start_index = 0;
   std::string worker_file; // internal: worker mode
@@ -846,6 +846,8 @@ int main(int argc, char **argv) {
       o.selftest = true;
     else if (a == "--list")
       o.list = true;
+    else if (a == "--dump-case")
+      o.dump_case = true;
     else if (a == "--quiet")
       o.quiet = true;
     else if (a == "--no-minimise")
@@ -878,6 +880,20 @@ int main(int argc, char **argv) {
   if (o.property.empty()) {
     fprintf(stderr, "need --property\n");
     return 3;
+  }
+  if (o.dump_case) {
+    // print the case generated for run index --start (no check is run)
+    auto engs = engines_of(o.property);
+    Tier tier = tier_of(o.tier);
+    size_t ei = (size_t)(o.start_index % (long)engs.size());
+    Rng r(run_seed(o.seed, o.start_index));
+    Case c = engs[ei]->gen(r, tier, engs[ei]->domains(tier));
+    c.origin_seed = run_seed(o.seed, o.start_index);
+    Json j = Json::obj();
+    j.set("engine", engs[ei]->id);
+    j.set("case", c.to_json());
+    printf("%s\n", j.dump(1).c_str());
+    return 0;
   }
   if (o.runs < 0)
     o.runs = (o.tier == "thorough") ? 200000 : 6000;
